@@ -155,9 +155,9 @@ class StepRunner:
     """Runs a pipeline on a real PandoraMachine one step at a time (run_prepare / run(step) / run_exit), so that the
     state between steps is observable."""
 
-    def __init__(self, left, right, cfg):
+    def __init__(self, left, right, cfg, machine=None):
         from pandora.state_machine import PandoraMachine
-        self.m = PandoraMachine()
+        self.m = machine if machine is not None else PandoraMachine()
         self.cfg = cfg
         self.left, self.right = left, right
         self.m.run_prepare(cfg, left, right)
